@@ -186,6 +186,11 @@ ERR_GRAPHS = {
     "missing.parent": {"main.asm": [" NOP", " INCLUDE nosuch/../a.asm"], "a.asm": ["A1 RTS"]},
     "missing.parent.nested": {"main.asm": [" INCLUDE a.asm"], "a.asm": [" INCLUDE sub/nosuch/../../b.asm"], "b.asm": ["B1 RTS"], "sub/keep.asm": [" NOP"]},
     "file.as.dir": {"main.asm": [" INCLUDE a.asm/../b.asm"], "a.asm": ["A1 RTS"], "b.asm": ["B1 RTS"]},
+    # cycles closed through a symbolic link: to the file itself, and to the directory the files live in
+    "cycle.link.file": {"main.asm": [" INCLUDE real.asm"], "real.asm": ["R1 NOP", " INCLUDE alias.asm"], "alias.asm": ["LINK:real.asm"]},
+    "cycle.link.dir": {"main.asm": [" INCLUDE lib/a.asm"], "lib/a.asm": ["A1 NOP", " INCLUDE inc/b.asm"], "lib/b.asm": ["B1 NOP", " INCLUDE inc/a.asm"],
+                       "inc": ["LINK:lib"]},
+    "self.link": {"main.asm": [" NOP", " INCLUDE me.asm"], "me.asm": ["LINK:main.asm"]},
 }
 
 
@@ -202,7 +207,10 @@ def check_case(case):
             for fn, content in files.items():
                 if os.path.dirname(fn):
                     os.makedirs(os.path.dirname(fn), exist_ok=True)
-                open(fn, "w").write("".join(ln + "\n" for ln in content))
+                if content and content[0].startswith("LINK:"):
+                    os.symlink(content[0][5:], fn)
+                else:
+                    open(fn, "w").write("".join(ln + "\n" for ln in content))
             out = common.assemble_confirm(files["main.asm"], budget=10)
             cell = "error|" + case["graph"]
             if out["kind"] != "DIAG":
